@@ -20,6 +20,7 @@ pub const VOCAB: &[&str] = &[
     ">", "-", "+", "*", "/", "%", "a", "b", "f", "x", "0", "1", "2", "7", "1.5", "\"s\"",
     "print", "lengte", "int", "type", ".", "^", "\"\"", "\"a\\\"b\"", "3.", "0.0", "string", "float", "bool",
     "a.b", "1.x", "é", "//", "// c\n", "-1", "f(", "a[", "x =", "+=",
+    "/*", "*/", "#", "'", "\\", "\"", "\r\n", "-=", "*=", "/=", "1e3", "0x1", "_", "€",
 ];
 
 /// The token texts of `text` (through the real lexer's spans)
